@@ -5,7 +5,7 @@ from checks.harness import meta
 
 PROPERTY = "C12"
 LEVEL = "proof"
-LEAN_MODULES = ["Exetera.Props.C12", "Exetera.Props.C12Copy", "Exetera.Props.C12Map", "Exetera.Props.C12Rest"]
+LEAN_MODULES = ["Exetera.Props.C12", "Exetera.Props.C12Copy", "Exetera.Props.C12Map", "Exetera.Props.C12Rest", "Exetera.Props.C12Legacy"]
 BASES = ["c03", "c04", "c16", "c05", "c18", "c12_copy"]
 MODES = {"quick": ["jit"], "thorough": ["jit", "nojit"], "search": ["jit"]}
 CASE_TIMEOUT = 15
@@ -33,7 +33,9 @@ LEVEL_TEXT = ("Proof on the model's step semantics, per streamed driver, for eve
               "n <= fuel*cs (chunked_copy_eq/_terminates/_field_eq), every iteration advances by min(cs, n-i) "
               "(chunked_copy_never_spins); "
               "(7) read_file_using_fast_csv_reader: fuel >= records+2 gives the file's columns, under C05's two no-regrowth "
-              "hypotheses only (csv_driver_terminates_partial). "
+              "hypotheses only (csv_driver_terminates_partial); "
+              "(8) the legacy driver generate_ordered_map_to_left_right_unique_streamed_old: `.ok` on every input within the model's "
+              "budgets |L|+|R| (main loop) and |L| (tail), every iteration advances i+j (legacy_join_streamed_terminates/_never_spins). "
               "Partial by nature: wall-clock time is not modelled; the step semantics is tied to the code by comparing "
               "kernel-invocation / write counts and by a watchdog.")
 LEVEL_NOTE = ("The drivers of (2)-(4) are the models of C04/C16 with the fuel of their driver loops turned into a parameter "
@@ -42,9 +44,10 @@ LEVEL_NOTE = ("The drivers of (2)-(4) are the models of C04/C16 with the fuel of
               "linear in the window the kernel is given) and finish within them as part of the same `.ok` statements. The indexed "
               "stream's bound is linear for a fixed run of the driver loops; the total work over a NON-monotone map (NC02a) can "
               "revisit a source window once per sub-chunk and is then bounded by the product |map|·min(cs,|source|), not stated "
-              "here. Not proved: CSV reading with regrowth of the staging buffers (_partial, owned by C05); the legacy `_old` "
-              "streamed helpers of Session.ordered_merge_* (models run with the linear budgets |L|+|R| resp. |map|+|data|+1; "
-              "call-counted and watchdogged by the C19 correspondence only). With chunksize = 0 (outside the property) "
+              "here. Not proved: CSV reading with regrowth of the staging buffers (_partial, owned by C05); the second legacy "
+              "driver ordered_map_valid_stream_old (model budget |map|+|data|+1; an out-of-range map entry >= len(data) would make "
+              "it re-call the partial kernel without progress — excluded by C19's in-range maps; watchdogged by the C19 "
+              "correspondence only). With chunksize = 0 (outside the property) "
               "element_chunked_copy spins — recorded as a fixpoint example next to chunked_copy_eq, not a finding. "
               "Trusted: Lean kernel; the hand-written driver models (validated by result and call-count correspondence); the "
               "watchdog (CASE_TIMEOUT seconds, retried with 4x budget) for what 'hang' means on the implementation.")
